@@ -405,14 +405,15 @@ Definition new_sparse_step (st : nsp) : res (N * nsp) :=
 
 Fixpoint new_sparse_loop (n : nat) (i : N) (st : nsp) (pending : option N) (acc : list (N * N))
   : res (list (N * N) * nsp) :=
+  (* acc: the entries read so far, most recent first *)
   match n with
-  | O => Ok (match pending with Some o => acc ++ [(o, 0)] | None => acc end, st)
+  | O => Ok (rev (match pending with Some o => (o, 0) :: acc | None => acc end), st)
   | S n' =>
     do r <- new_sparse_step st;
     let (value, st') := r in
     match pending with
     | None => new_sparse_loop n' (i + 1) st' (Some value) acc
-    | Some o => new_sparse_loop n' (i + 1) st' None (acc ++ [(o, value)])
+    | Some o => new_sparse_loop n' (i + 1) st' None ((o, value) :: acc)
     end
   end.
 
